@@ -212,6 +212,7 @@ def run(tier: str, seed: int) -> int:
     for pats in (("aa",), ("aa", "bb"), ("aba",)):
         for sch in ("one", "all"):
             cfgs.append(("a", pats, "ab", "s0", "needrev", "forest", sch, True))
+    cfgs = list(dict.fromkeys(cfgs))
     res = [x for x in pmap(spec_job, cfgs, procs=16, chunk=2) if x]
     serial = [x["serial"] for x in res]
     specs = [x["spec"] for x in res]
